@@ -130,6 +130,34 @@ def rule_emission(ctx: Ctx) -> None:
                     if nog is True and any(c.kind == "call" and c.name == "add_status" for c in ib.effects):
                         fp_skips_gtless = False
     ctx.check(fp_skips_gtless, "C19-emission", "get_object_status", "fp-without-gt", "get_object_status tallies an FP result that has no ground truth", fi=fs)
+    # per item of each list: exactly one add_status(<status of that list>, <this frame's number>) on the record of the item's GROUND TRUTH uuid;
+    # a uuid seen for the first time gets a new record that is kept
+    for bp in outer[0].body[:1]:
+        for e in bp.effects:
+            if e.kind != "loop":
+                continue
+            m = re.match(rf"^{fr}\.pass_fail_result\.(\w+)$", S(e.text))
+            if not m or m.group(1) not in LISTS:
+                continue
+            lst, st = m.group(1), LISTS[m.group(1)]
+            iv = U(e.node.target)
+            uid = f"{iv}.ground_truth_object.uuid" if lst.endswith("_results") else f"{iv}.uuid"
+            for ib in e.body:
+                cd = {S(c[0]): c[1] for c in ib.conds if isinstance(c, tuple)}
+                if lst == "fp_object_results" and cd.get(f"none:{iv}.ground_truth_object"):
+                    continue
+                known = cd.get(f"in:{uid}instatus_infos")
+                ctx.check(known is not None, "C19-emission", "get_object_status", f"{lst}:record-lookup", f"a {st} item's record is looked up by {[k for k in cd if k.startswith('in:')]}; expected `{uid} in status_infos` (the ground truth's uuid)", fi=fs)
+                if known is None:
+                    continue
+                adds = [(S(c.recv), [S(a) for a in c.args]) for c in ib.effects if c.kind == "call" and c.name == "add_status"]
+                rec = f"status_infos[status_infos.index({uid})]" if known else f"GroundTruthStatus({uid})"
+                want = [(rec, [f"MatchingStatus.{st}", f"int({fr}.frame_name)"])]
+                ctx.check(adds == want, "C19-emission", "get_object_status", f"{lst}:tally:{'known' if known else 'new'}",
+                          f"a {st} item whose ground truth is {'already recorded' if known else 'new'} is tallied by {adds}; expected exactly {want}", fi=fs, expected=str(want), found=str(adds))
+                kept = [S(c.args[0]) for c in ib.effects if c.kind == "call" and c.name == "append" and S(c.recv) == "status_infos"]
+                ctx.check(kept == ([] if known else [rec]), "C19-emission", "get_object_status", f"{lst}:record-kept:{'known' if known else 'new'}",
+                          f"for a {'known' if known else 'new'} ground truth the records gain {kept}; expected {[] if known else [rec]}", fi=fs)
     for lst, st in LISTS.items():
         hit = [x for x in inner_lists if x[0] == lst]
         ctx.check(len(hit) == 1 and hit[0][1] == {st}, "C19-emission", "get_object_status", lst, f"get_object_status tallies {lst} as {[sorted(h[1]) for h in hit]}; expected once with status {st}", fi=fs)
@@ -202,6 +230,10 @@ def rule_fields(ctx: Ctx) -> None:
             m = re.match(r"^(.*)\.frame_id\.value$", kw.get("frame_id", ""))
             ctx.require(m is not None, f"format2dict: the {side} block has no frame_id=<obj>.frame_id.value entry")
             obj = m.group(1)
+            is_obj = fact_where(p, lambda k: S(k) == "isinstance:object_result,DynamicObject")
+            want_obj = (("object_result.ground_truth_object" if side == "gt" else "object_result.estimated_object") if is_res else "object_result" if is_obj else None)
+            ctx.check(want_obj is not None and obj == want_obj, "C19-fields", "PerceptionAnalyzer3D.format2dict", f"{side}:source:{'result' if is_res else 'object'}",
+                      f"the {side} row of a {'paired result' if is_res else 'bare object'} is filled from `{obj}`; expected `{want_obj}`", fi=fi, expected=str(want_obj), found=obj)
             sig = (side, obj, tuple(sorted(kw.items())))
             if sig in checked:
                 continue
@@ -250,6 +282,23 @@ def rule_fields(ctx: Ctx) -> None:
         ctx.check(isinstance(rv, ast.Dict) and [S(k) for k in rv.keys] == ["'ground_truth'", "'estimation'"] and [strip_v(S(v)) for v in rv.values] == ["gt_ret", "est_ret"], "C19-fields",
                   "PerceptionAnalyzer3D.format2dict", "returns", f"returns `{S(rv)[:80]}`", fi=fi)
     ctx.require(len(checked) >= 3, f"format2dict: only {len(checked)} row blocks analysed")
+    rows = set()
+    for p in paths:
+        f2 = {S(k): v for k, v in p.facts.items()}
+        is_res, is_obj, is_none = f2.get("isinstance:object_result,DynamicObjectWithPerceptionResult"), f2.get("isinstance:object_result,DynamicObject"), f2.get("none:object_result")
+        raised = bool(p.exit) and p.exit[0] == "raise"
+        if is_res:
+            rows.add("result")
+            ctx.check(not raised, "C19-fields", "PerceptionAnalyzer3D.format2dict", "dispatch:result", f"a paired result raises {p.exit}", fi=fi)
+        elif is_res is False and is_obj:
+            sts = [k.split("MatchingStatus.")[1] for k, v in f2.items() if k.startswith("eq:status==MatchingStatus.") and v]
+            rows.add("object:" + (sts[0] if sts else "other"))
+            ctx.check(raised == (not sts or sts[0] not in ("FP", "TN", "FN")), "C19-fields", "PerceptionAnalyzer3D.format2dict", f"dispatch:object:{sts[0] if sts else 'other'}",
+                      f"a bare object with status {sts[0] if sts else '(none of FP/TN/FN)'} {'raises' if raised else 'is tabulated'}; bare objects are FP estimates or TN / FN ground truths, anything else is an error", fi=fi)
+        elif is_res is False and is_obj is False:
+            rows.add("none" if is_none else "other")
+            ctx.check(raised == (not is_none), "C19-fields", "PerceptionAnalyzer3D.format2dict", f"dispatch:{'none' if is_none else 'other'}", f"an input that is {'None' if is_none else 'neither a result nor an object'} {'raises' if raised else 'is tabulated'}", fi=fi)
+    ctx.require({"result", "object:FP", "object:TN", "object:FN", "object:other", "none", "other"} <= rows, f"format2dict: dispatch rows {sorted(rows)}")
     # area index from the ego-frame position
     fa = ctx.func("tool.utils.get_area_idx")
     for p in enum_paths(ctx, fa):
@@ -558,6 +607,43 @@ def rule_selection(ctx: Ctx) -> None:
                       f"selection `{kv}={iv}` narrows the mask by {augs}; expected {want} (a pair is kept when either of its rows matches)", fi=ff, expected=str(want), found=str(augs))
 
 
+def rule_status_record(ctx: Ctx) -> None:
+    """GroundTruthStatus.add_status: every call records the frame in the total list and in exactly the list of its status (no de-duplication: frame numbers
+    restart per scene, the same ground truth is legitimately seen again with the same number)."""
+    fi = ctx.func("common.status.GroundTruthStatus.add_status")
+    rows = set()
+    for p in enum_paths(ctx, fi):
+        f = {S(k): v for k, v in p.facts.items()}
+        sts = [k.split("MatchingStatus.")[1] for k, v in f.items() if k.startswith("eq:status==MatchingStatus.") and v]
+        other = [k for k in f if not k.startswith("eq:status==MatchingStatus.")]
+        ctx.check(not other, "C19-status-record", "GroundTruthStatus.add_status", f"depends-on:{other[0][:40] if other else ''}",
+                  f"whether a status is recorded depends on `{other[0] if other else ''}`; every call must be recorded (the tally is per evaluated frame, frame numbers are not unique across scenes)", fi=fi)
+        if other:
+            continue
+        ap = [(S(a.recv), S(a.args[0])) for a in appends(p)]
+        if not sts:
+            rows.add("other")
+            ctx.check(bool(p.exit) and p.exit[0] == "raise", "C19-status-record", "GroundTruthStatus.add_status", "unknown-status", "an unknown status is accepted", fi=fi)
+            continue
+        st = sts[0]
+        rows.add(st)
+        want = [("self.total_frame_nums", "frame_num"), (f"self.{st.lower()}_frame_nums", "frame_num")]
+        ctx.check(sorted(ap) == sorted(want) and p.exit in (("fall",), ("return",), None), "C19-status-record", "GroundTruthStatus.add_status", st, f"status {st} is recorded by {ap}; expected {want}", fi=fi, expected=str(want), found=str(ap))
+    ctx.require({"TP", "FP", "TN", "FN"} <= rows, f"GroundTruthStatus.add_status: rows {sorted(rows)}")
+    # `df=None` means "the whole table" and nothing else does: an EMPTY selection stays empty
+    n = 0
+    for qn, f in sorted(ctx.index.functions.items()):
+        if not qn.startswith("perception_eval.tool."):
+            continue
+        for nd in ast.walk(f.node):
+            if isinstance(nd, ast.If) and any(isinstance(b, ast.Assign) and S(b.value) == "self.df" and len(b.targets) == 1 and S(b.targets[0]) == "df" for b in nd.body):
+                n += 1
+                ctx.touch(f)
+                ctx.check(S(nd.test) in ("dfisNone", "Noneisdf"), "C19-selection", qn.split("tool.", 1)[1], "df-default", f"the whole table is substituted when `{ast.unparse(nd.test)}`; only `df is None` means `no selection` - an empty selection must stay empty "
+                          "(otherwise the summaries of an empty scene / area silently show the other scenes' rows)", fi=f, expected="df is None", found=ast.unparse(nd.test))
+    ctx.require(n >= 8, f"C19-selection: only {n} `df = self.df` defaulting sites found in tool/ (hand-confirmed minimum 8)")
+
+
 def run(ctx: Ctx) -> None:
     from rules import generic as _G
     ctx.run(_G.rule_arity, ("perception_eval.tool",), "R-ARITY", 60)
@@ -566,5 +652,6 @@ def run(ctx: Ctx) -> None:
     ctx.run(rule_errors)
     ctx.run(rule_counts)
     ctx.run(rule_selection)
+    ctx.run(rule_status_record)
     ctx.run(C03.rule_critical)  # the lists tabulated are computed from the CRITICAL ground truth (count = number of critical ground truths)
     ctx.run(G.rule_tf, ("perception_eval.tool",), "R-TF", None, 3)
